@@ -2,7 +2,13 @@
 
 Abstract hierarchy (the shared truth between the source renderer and the Lean wire form):
 
-    H = [ {name, parents, abstract, props, invs, methods, args, ctor, wmt}, ... ]   (declaration order)
+    H = [ {name, parents, abstract, props, invs, methods, args, ctor, wmt[, ser]}, ... ]   (declaration order)
+
+``wmt`` is the declared ``with_model_type`` (None | True | False); the optional ``ser`` selects HOW the decorator is
+written: absent key/None = ``@serialization(with_model_type=<wmt>)`` resp. no decorator when ``wmt`` is None,
+``"bare"`` = ``@serialization()`` (decorator present, setting left open; only with ``wmt`` None), ``"pos"`` =
+``@serialization(<wmt>)`` (positional).  All spellings of one setting have the same wire form: the model (and the
+statement of C05) only knows the declared value.
 
 * ``render(H)``      -> meta-model source text fed to the REAL front end (parse + intermediate.translate)
 * ``wire(H)``        -> one request line for the Lean driver (``Hier.translate``)
@@ -58,7 +64,9 @@ def render(h: Hier) -> str:
         if c["abstract"]:
             out.append("@abstract")
         if c["wmt"] is not None:
-            out.append(f"@serialization(with_model_type={c['wmt']})")
+            out.append(f"@serialization({c['wmt']})" if c.get("ser") == "pos" else f"@serialization(with_model_type={c['wmt']})")
+        elif c.get("ser") == "bare":
+            out.append("@serialization()")
         for d in reversed(c["invs"]):  # decorators apply bottom-up
             out.append(f'@invariant(lambda self: True, "{d}")')
         bases = ", ".join(list(c["parents"]) + ["DBC"])
@@ -202,19 +210,193 @@ def canon_dump(d: Dict[str, Any]) -> str:
     return "ok " + ";".join(parts)
 
 
-def impl(h: Hier) -> Tuple[str, Optional[Dict[str, Any]]]:
+def impl3(h: Hier) -> Tuple[str, Optional[Dict[str, Any]], Any]:
+    """(canonical outcome, dump of an accepted model, the symbol table itself)"""
     kind, payload = run_real(h)
     if kind == "ok":
         try:
             d = dump_real(payload)
         except BaseException as e:  # noqa
-            return "crash:dump:" + type(e).__name__, None
-        return canon_dump(d), d
+            return "crash:dump:" + type(e).__name__, None, None
+        return canon_dump(d), d, payload
     if kind == "cycle":
-        return "cycle " + enc_text(payload), None
+        return "cycle " + enc_text(payload), None, None
     if kind == "err":
-        return "err " + payload, None
-    return payload, None
+        return "err " + payload, None, None
+    return payload, None, None
+
+
+def impl(h: Hier) -> Tuple[str, Optional[Dict[str, Any]]]:
+    got, d, _ = impl3(h)
+    return got, d
+
+
+# --------------------------------------------------------------------------- id-set backed queries + pickle round trip
+#
+# ``Class`` keeps, beside every list (inheritances, ancestors, descendants, concrete descendants, properties, methods,
+# invariants), a derived ``*_id_set`` / ``*_by_name`` that the rest of the generator queries (``is_subclass_of``,
+# ``ancestor_id_set`` …).  They are dropped by ``__getstate__`` and recomputed by ``__setstate__``, so a pickled and
+# re-loaded symbol table (that is what ``run.load_model`` caches) answers them from DIFFERENT code than a fresh one.
+# ``dump_ext`` reads every such query through the public API and names the ids; it is compared fresh vs un-pickled
+# and judged against the closure of the SOURCE hierarchy (``judge_ext``) on both tables.
+
+
+def dump_ext(st: Any) -> Dict[str, Any]:
+    from aas_core_codegen import intermediate
+
+    classes = list(st.classes)
+    name_of = {id(c): str(c.name) for c in classes}
+
+    def ids(s: Any) -> List[str]:
+        known = sorted(name_of[i] for i in s if i in name_of)
+        foreign = sum(1 for i in s if i not in name_of)
+        return known + ([f"?{foreign} foreign id(s)"] if foreign else [])
+
+    def strangers(xs: Sequence[Any]) -> List[str]:
+        """names in a list of classes whose object is not THE class of that name in the table"""
+        return [str(x.name) for x in xs if st.find_our_type(x.name) is not x]
+
+    def by_name(mapping: Any, items: Sequence[Any]) -> Dict[str, Any]:
+        return {
+            "keys": [f"{k}={v.specified_for.name}/{v.name}" for k, v in mapping.items()],
+            "same": len(mapping) == len(items) and all(mapping.get(x.name, None) is x for x in items),
+        }
+
+    out: Dict[str, Any] = {
+        "our_types": [str(t.name) for t in st.our_types],
+        "concrete_classes": [str(t.name) for t in st.concrete_classes],
+        "topo_strangers": strangers(list(st.our_types_topologically_sorted)),
+        "classes": {},
+    }
+    for c in classes:
+        e: Dict[str, Any] = {
+            "inh": [str(x.name) for x in c.inheritances],
+            "inh_ids": ids(c.inheritance_id_set),
+            "anc_ids": ids(c.ancestor_id_set),
+            "desc_ids": ids(c.descendant_id_set),
+            "cdesc_ids": ids(c.concrete_descendant_id_set),
+            "sub": [str(t.name) for t in classes if c.is_subclass_of(t)],
+            "strangers": strangers(list(c.inheritances) + list(c.ancestors) + list(c.descendants) + list(c.concrete_descendants))
+            + strangers([x.specified_for for x in list(c.properties) + list(c.methods) + list(c.invariants)]),
+            "pbn": by_name(c.properties_by_name, c.properties),
+            "mbn": by_name(c.methods_by_name, c.methods),
+            "pid": c.property_id_set == frozenset(id(x) for x in c.properties),
+            "mid": c.method_id_set == frozenset(id(x) for x in c.methods),
+            "iid": c.invariant_id_set == frozenset(id(x) for x in c.invariants),
+            "iface": None,
+        }
+        i = c.interface
+        if i is not None:
+            e["iface"] = {
+                "base": i.base is c,
+                "inh": [str(x.name) for x in i.inheritances],
+                "inh_same": all(x is getattr(st.find_our_type(x.name), "interface", None) for x in i.inheritances),
+                "impl": [str(x.name) for x in i.implementers],
+                "impl_strangers": strangers(list(i.implementers)),
+                "props": [str(x.name) for x in i.properties],
+                "props_same": all(c.properties_by_name.get(x.name, None) is x for x in i.properties),
+                "pbn": [str(k) for k in i.properties_by_name],
+                "pid": i.property_id_set == frozenset(id(x) for x in i.properties),
+            }
+        out["classes"][str(c.name)] = e
+    _ = intermediate
+    return out
+
+
+def judge_ext(h: Hier, d: Dict[str, Any], x: Dict[str, Any]) -> List[Tuple[str, str]]:
+    """The id-set / by-name backed queries decided against the closure of the source hierarchy."""
+    bad: List[Tuple[str, str]] = []
+    by = {c["name"]: c for c in h}
+    names = [c["name"] for c in h]
+    anc = closure(h)
+    if x["our_types"] != names or x["concrete_classes"] != [n for n in names if not by[n]["abstract"]]:
+        bad.append(("C05:table-lists", f"our_types {x['our_types']} / concrete_classes {x['concrete_classes']} differ from the declared classes {names}"))
+        return bad
+    if x["topo_strangers"]:
+        bad.append(("C05:identity", f"our_types_topologically_sorted holds objects that are not the classes of the table: {x['topo_strangers']}"))
+    for c in h:
+        n = c["name"]
+        e = x["classes"][n]
+        inv = sorted(m for m in names if n in anc[m])
+        if e["inh"] != c["parents"]:
+            bad.append(("C05:inheritances", f"inheritances of {n} are {e['inh']}, declared {c['parents']}"))
+        if e["inh_ids"] != sorted(set(c["parents"])):
+            bad.append(("C05:idset-inheritances", f"inheritance_id_set of {n} names {e['inh_ids']}, declared {sorted(set(c['parents']))}"))
+        if e["anc_ids"] != sorted(anc[n]):
+            bad.append(("C05:idset-ancestors", f"ancestor_id_set of {n} names {e['anc_ids']}, the closure is {sorted(anc[n])}"))
+        if e["desc_ids"] != inv:
+            bad.append(("C05:idset-descendants", f"descendant_id_set of {n} names {e['desc_ids']}, the inverse relation gives {inv}"))
+        want_cd = [m for m in inv if not by[m]["abstract"]]
+        if e["cdesc_ids"] != want_cd:
+            bad.append(("C05:idset-concrete-descendants", f"concrete_descendant_id_set of {n} names {e['cdesc_ids']}, expected {want_cd}"))
+        want_sub = [m for m in names if m == n or m in anc[n]]
+        if e["sub"] != want_sub:
+            bad.append(("C05:is-subclass-of", f"{n}.is_subclass_of holds for {e['sub']}, the closure (with {n} itself) is {want_sub}"))
+        if e["strangers"]:
+            bad.append(("C05:identity", f"{n} refers to objects that are not the classes of the table: {e['strangers']}"))
+        r = d["classes"][n]
+        for key, lst, what in (("pbn", r["props"], "properties_by_name"), ("mbn", r["methods"], "methods_by_name")):
+            want = [f"{y.split('/', 1)[1]}={y}" for y in lst]
+            if e[key]["keys"] != want or not e[key]["same"]:
+                bad.append((f"C05:{what}", f"{what} of {n} is {e[key]['keys']} (same objects: {e[key]['same']}), the stacked list is {lst}"))
+        for key, what in (("pid", "property_id_set"), ("mid", "method_id_set"), ("iid", "invariant_id_set")):
+            if not e[key]:
+                bad.append((f"C05:{what}", f"{what} of {n} is not the set of ids of the listed objects"))
+        i = e["iface"]
+        if i is not None:
+            own_p = [p for p in c["props"]]
+            impl = sorted(want_cd + ([] if c["abstract"] else [n]))
+            if not i["base"] or i["inh"] != c["parents"] or not i["inh_same"]:
+                bad.append(("C05:interface-parents", f"interface of {n}: base is the class: {i['base']}, parent interfaces {i['inh']} (the parents' own: {i['inh_same']}), declared parents {c['parents']}"))
+            if sorted(i["impl"]) != impl or len(i["impl"]) != len(set(i["impl"])) or i["impl_strangers"]:
+                bad.append(("C05:interface-implementers", f"implementers of the interface of {n} are {i['impl']}, expected {impl}"))
+            if i["props"] != own_p or i["pbn"] != own_p or not i["props_same"] or not i["pid"]:
+                bad.append(("C05:interface-properties", f"interface of {n} lists the properties {i['props']} (by name {i['pbn']}, id set right: {i['pid']}), the class declares {own_p}"))
+    return bad
+
+
+def round_trip(st: Any) -> Any:
+    import pickle
+
+    return pickle.loads(pickle.dumps(st))
+
+
+def examine(h: Hier, got: str, d: Dict[str, Any], st: Any) -> Dict[str, Any]:
+    """Everything beyond the Lean-compared dump for an ACCEPTED model: id-set queries on the fresh table, the pickle
+    round trip (same dump, same queries, same oracle).  Returns {"fail": [(sig, what)], "diff": [text], "trip": outcome}."""
+    fail: List[Tuple[str, str]] = []
+    diff: List[str] = []
+    fresh = judge(h, d)
+    x1: Optional[Dict[str, Any]] = None
+    try:
+        x1 = dump_ext(st)
+        fresh_ext = judge_ext(h, d, x1)
+    except BaseException as e:  # noqa
+        fresh_ext = [("C05:query-" + crash_name(e), f"a query on the fresh symbol table raised {type(e).__name__}: {e}"[:300])]
+    fail += fresh + fresh_ext
+    seen = {sig for sig, _ in fail}
+    try:
+        st2 = round_trip(st)
+    except BaseException as e:  # noqa
+        fail.append(("C05:pickle-" + crash_name(e), f"pickle round trip of the accepted symbol table raised {type(e).__name__}: {e}"[:300]))
+        return {"fail": fail, "diff": diff, "trip": crash_name(e)}
+    try:
+        d2 = dump_real(st2)
+        x2 = dump_ext(st2)
+    except BaseException as e:  # noqa
+        fail.append(("C05:unpickled-query-" + crash_name(e), f"a query on the un-pickled symbol table raised {type(e).__name__}: {e}"[:300]))
+        return {"fail": fail, "diff": diff, "trip": "query-" + crash_name(e)}
+    got2 = canon_dump(d2)
+    if got2 != got:
+        diff.append("canonical dump changed by the pickle round trip")
+    if x1 is not None and x2 != x1:
+        keys = sorted(f"{n}.{k}" for n in x1["classes"] for k in x1["classes"][n] if x2["classes"].get(n, {}).get(k) != x1["classes"][n][k])
+        diff.append(f"id-set backed queries changed by the pickle round trip: {keys[:8]}")
+    # the same oracle on the un-pickled table; what already fails on the fresh table is reported once, there
+    for sig, what in judge(h, d2) + judge_ext(h, d2, x2):
+        if sig not in seen:
+            fail.append((sig + ":unpickled", "after pickle.loads(pickle.dumps(symbol_table)): " + what))
+    return {"fail": fail, "diff": diff, "trip": "identity" if not diff else "changed", "unpickled": got2}
 
 
 # --------------------------------------------------------------------------- the direct oracle
@@ -334,6 +516,15 @@ def judge(h: Hier, d: Dict[str, Any]) -> List[Tuple[str, str]]:
                     bad.append(("C05:model-type", f"{n} has with_model_type but its descendant {m} has not"))
         if c["wmt"] is not None and r["wmt"] != c["wmt"]:
             bad.append(("C05:model-type-own", f"{n} declares with_model_type={c['wmt']} but got {r['wmt']}"))
+        # ... evaluated from the source: the setting of a class is the one declared by the class or by any of its
+        # ancestors (all of them agree in an accepted model), False when nobody declares one; however the decorator
+        # is spelled on the classes in between (absent, `@serialization()`, positional)
+        declared = sorted({by[a]["wmt"] for a in anc[n] | {n} if a in by and by[a]["wmt"] is not None})
+        if len(declared) > 1:
+            bad.append(("C05:model-type-contradiction-accepted", f"{n} and its ancestors declare both with_model_type=True and =False, yet the model is accepted"))
+        elif r["wmt"] is not None and r["wmt"] != (declared[0] if declared else False):
+            carriers = sorted(a for a in anc[n] | {n} if by[a]["wmt"] is not None)
+            bad.append(("C05:model-type-source", f"{n}: with_model_type={r['wmt']}, but the source declares {declared[0] if declared else 'nothing (default False)'} on {carriers}"))
     return bad
 
 
@@ -346,8 +537,10 @@ NAME_POOL = [
 ]  # fmt: skip
 
 
-def mk_class(name: str, parents: Sequence[str], abstract: bool = False, props: int = 1, invs: int = 0, methods: int = 0, wmt: Optional[bool] = None) -> Dict[str, Any]:
+def mk_class(name: str, parents: Sequence[str], abstract: bool = False, props: int = 1, invs: int = 0, methods: int = 0, wmt: Optional[bool] = None, ser: Optional[str] = None) -> Dict[str, Any]:
     low = name.lower()
+    if ser is not None:
+        return dict(mk_class(name, parents, abstract, props, invs, methods, wmt), ser=ser)
     return {
         "name": name,
         "parents": list(parents),
@@ -510,6 +703,9 @@ def random_hier(ctx: Ctx, nmax: int) -> Hier:
                 methods=(rng.choice([0, 0, 1]) if with_methods else 0), wmt=w,
             )
         )
+        # how the decorator is spelled: bare `@serialization()` on classes without a setting, positional argument
+        if wmt_mode != "none" and rng.random() < 0.25:
+            cls[-1]["ser"] = "bare" if w is None else "pos"
     # a random legal declaration order
     done: List[str] = []
     rest = list(names)
@@ -581,7 +777,10 @@ def mutate(ctx: Ctx, h: Hier) -> Tuple[Hier, str]:
             c["props"], c["ctor"], c["args"] = [], [], []
     elif kind == "wmt":
         for c in rng.sample(h, min(len(h), 3)):
-            c["wmt"] = rng.choice([True, False])
+            c["wmt"] = rng.choice([True, True, False, None])
+            c.pop("ser", None)
+            if rng.random() < 0.5:
+                c["ser"] = "bare" if c["wmt"] is None else "pos"
     elif kind == "no-ctor":
         cand = [c for c in h if c["ctor"] and not c["props"]]
         if cand:
@@ -648,6 +847,16 @@ def boundary(ctx: Ctx) -> Iterator[Tuple[Hier, str]]:
     yield [mk_class("C", ["B"], props=0, invs=1), mk_class("B", ["A"], props=0, invs=1), mk_class("A", [], props=0, invs=1, wmt=True, abstract=True)], "boundary"
     # the second parent alone carries with_model_type
     yield canonical_ctors([A(), mk_class("B", [], wmt=True), mk_class("C", ["A", "B"])]), "boundary"
+    # the decorator without a setting (`@serialization()`): below an ancestor with the setting, between two carriers,
+    # above a carrier, alone; positional spelling; a bare one must not count as a contradiction
+    B = lambda parents, **k: mk_class("B", parents, **k)  # noqa: E731
+    yield canonical_ctors([A(wmt=True, abstract=True), B(["A"], ser="bare"), mk_class("C", ["B"])]), "boundary"
+    yield canonical_ctors([A(wmt=True), B(["A"], ser="bare"), mk_class("C", ["B"], ser="bare"), mk_class("D", ["C"])]), "boundary"
+    yield canonical_ctors([A(ser="bare"), B(["A"], wmt=True), mk_class("C", ["B"], ser="bare")]), "boundary"
+    yield canonical_ctors([A(ser="bare"), B(["A"], ser="bare")]), "boundary"
+    yield canonical_ctors([A(wmt=True, ser="pos"), B([], ser="bare"), mk_class("C", ["B", "A"], ser="bare"), mk_class("D", ["C"])]), "boundary"
+    yield canonical_ctors([A(wmt=False), B(["A"], ser="bare"), mk_class("C", ["B"], wmt=True)]), "boundary"
+    yield canonical_ctors([A(wmt=True), B(["A"], ser="bare"), mk_class("C", ["B"], wmt=False, ser="pos")]), "boundary"
     # known finding C05-F1: the modeller assigns an own property twice; accepted, both assignments survive
     h = canonical_ctors([A(), mk_class("B", ["A"])])
     h[0]["ctor"].append(["A", "a_p0"])
@@ -658,10 +867,43 @@ def boundary(ctx: Ctx) -> Iterator[Tuple[Hier, str]]:
     yield h, "boundary"
 
 
+SER_VARIANTS: List[Tuple[Optional[bool], Optional[str]]] = [(None, None), (None, "bare"), (True, None), (False, None)]
+
+
+def ser_enumerated(ctx: Ctx) -> Iterator[Tuple[Hier, str]]:
+    """Every assignment of {no decorator, `@serialization()`, with_model_type=True, =False} to the classes of a chain
+    of three (declared top-down, and bottom-up without properties so that the front end accepts it), a join of two
+    roots, and a diamond: the setting must reach every descendant whichever way it is (not) written in between.
+    The positional spelling `@serialization(True)` replaces the keyword one in every third input."""
+    shapes_: List[Tuple[List[str], List[Tuple[int, int]], List[Optional[List[str]]], int]] = [
+        (["A", "B", "C"], [(0, 1), (1, 2)], [None], 1),
+        (["A", "B", "C"], [(0, 1), (1, 2)], [["C", "B", "A"], ["B", "C", "A"]], 0),
+        (["A", "B", "C"], [(0, 2), (1, 2)], [None], 1),
+        (["A", "B", "C", "D"], [(0, 1), (0, 2), (1, 3), (2, 3)], [None], 1),
+    ]
+    k = 0
+    for names, edges, orders, props in shapes_:
+        for combo in itertools.product(SER_VARIANTS, repeat=len(names)):
+            k += 1
+            order = orders[k % len(orders)]
+            parents: Dict[str, List[str]] = {x: [] for x in names}
+            for a, b in edges:
+                parents[names[b]].append(names[a])
+            if k % 2 == 0:
+                for x in parents:
+                    parents[x].reverse()
+            cls = {
+                x: mk_class(x, parents[x], abstract=(i == 0 and k % 4 < 2), props=props, invs=(0 if props else 1), wmt=w, ser=("pos" if (w is not None and k % 3 == 0) else sv))
+                for i, (x, (w, sv)) in enumerate(zip(names, combo))
+            }
+            yield canonical_ctors([cls[x] for x in (order or names)]), "ser-enum"
+
+
 def inputs(ctx: Ctx) -> Iterator[Tuple[Hier, str]]:
     for c in corpus(ID):
         yield c["hier"], "corpus"
     yield from boundary(ctx)
+    yield from ser_enumerated(ctx)
     yield from enumerated(ctx)
     nmax = 25
     for _ in range(ctx.n(250, 6000)):
@@ -721,8 +963,61 @@ def cprim_inputs(ctx: Ctx) -> Iterator[Hier]:
         yield mk(names, edges, ctx.rng.random() < 0.5, order)
 
 
+def judge_cprim(h: Hier, st: Any) -> List[Tuple[str, str]]:
+    """The statement of C05 on a table of constrained primitives, incl. the id-set backed queries."""
+    names = [c["name"] for c in h]
+    anc = closure(h)
+    by = {c["name"]: c for c in h}
+    got = {str(t.name): t for t in st.constrained_primitives}
+    bad: List[Tuple[str, str]] = []
+    if sorted(got) != sorted(names):
+        return [("C05:cprim-classes", f"constrained primitives {sorted(got)} differ from the declared {sorted(names)}")]
+    topo = [str(t.name) for t in st.our_types_topologically_sorted]
+    pos = {x: i for i, x in enumerate(topo)}
+    name_of = {id(t): n for n, t in got.items()}
+
+    def ids(s_: Any) -> List[str]:
+        return sorted(name_of.get(i, "?foreign") for i in s_)
+
+    for c in h:
+        n = c["name"]
+        t = got[n]
+        a = [str(x.name) for x in t.ancestors]
+        d = [str(x.name) for x in t.descendants]
+        inv = {m for m in names if n in anc[m]}
+        if set(a) != anc[n] or len(set(a)) != len(a):
+            bad.append(("C05:cprim-ancestors", f"ancestors of the constrained primitive {n} are {a}, the closure is {sorted(anc[n])}"))
+        if set(d) != inv or len(set(d)) != len(d):
+            bad.append(("C05:cprim-descendants", f"descendants of the constrained primitive {n} are {d}, the inverse relation gives {sorted(inv)}"))
+        if any(not pos[p] < pos[n] for p in c["parents"]):
+            bad.append(("C05:cprim-topo", f"a parent of {n} does not precede it in {topo}"))
+        invs = [f"{i.specified_for.name}/{i.description}" for i in t.invariants]
+        own = [f"{n}/{x}" for x in c["invs"]]
+        k = len(invs) - len(own)
+        want = {f"{x}/{y}" for x in anc[n] for y in by[x]["invs"]}
+        if k < 0 or invs[k:] != own or set(invs[:k]) != want or len(set(invs[:k])) != k:
+            bad.append(("C05:cprim-invariants", f"invariants of the constrained primitive {n} are {invs}; expected the inherited {sorted(want)} once each, then {own}"))
+        # id-set backed queries and object identity
+        if [str(x.name) for x in t.inheritances] != c["parents"] or ids(t.inheritance_id_set) != sorted(set(c["parents"])):
+            bad.append(("C05:cprim-inheritances", f"inheritances of the constrained primitive {n}: {[str(x.name) for x in t.inheritances]} / id set {ids(t.inheritance_id_set)}, declared {c['parents']}"))
+        if ids(t.ancestor_id_set) != sorted(anc[n]):
+            bad.append(("C05:cprim-idset-ancestors", f"ancestor_id_set of the constrained primitive {n} names {ids(t.ancestor_id_set)}, the closure is {sorted(anc[n])}"))
+        if ids(t.descendant_id_set) != sorted(inv):
+            bad.append(("C05:cprim-idset-descendants", f"descendant_id_set of the constrained primitive {n} names {ids(t.descendant_id_set)}, the inverse relation gives {sorted(inv)}"))
+        sub = [m for m in names if t.is_subclass_of(got[m])]
+        if sub != [m for m in names if m == n or m in anc[n]]:
+            bad.append(("C05:cprim-is-subclass-of", f"{n}.is_subclass_of holds for {sub}, the closure (with {n} itself) is {[m for m in names if m == n or m in anc[n]]}"))
+        if t.invariant_id_set != frozenset(id(i) for i in t.invariants):
+            bad.append(("C05:cprim-invariant-id-set", f"invariant_id_set of {n} is not the set of ids of its invariants"))
+        strangers = [str(x.name) for x in list(t.inheritances) + list(t.ancestors) + list(t.descendants) + [i.specified_for for i in t.invariants] if got.get(str(x.name)) is not x]
+        if strangers or st.find_our_type(t.name) is not t:
+            bad.append(("C05:cprim-identity", f"{n} refers to objects that are not the constrained primitives of the table: {strangers}"))
+    return bad
+
+
 def run_cprim(ctx: Ctx) -> None:
-    """The statement of C05 on hierarchies of constrained primitives (ancestors, descendants, invariants)."""
+    """The statement of C05 on hierarchies of constrained primitives (ancestors, descendants, invariants), on the
+    fresh symbol table and on its pickle round trip."""
     from aas_core_codegen import parse, intermediate
 
     for h in cprim_inputs(ctx):
@@ -742,36 +1037,21 @@ def run_cprim(ctx: Ctx) -> None:
             ctx.hit("cprim:rejected")
             continue
         ctx.hit("cprim:accepted")
-        names = [c["name"] for c in h]
-        anc = closure(h)
-        by = {c["name"]: c for c in h}
-        got = {str(t.name): t for t in st.constrained_primitives}
-        bad: List[Tuple[str, str]] = []
-        if sorted(got) != sorted(names):
-            bad.append(("C05:cprim-classes", f"constrained primitives {sorted(got)} differ from the declared {sorted(names)}"))
-        else:
-            topo = [str(t.name) for t in st.our_types_topologically_sorted]
-            pos = {x: i for i, x in enumerate(topo)}
-            for c in h:
-                n = c["name"]
-                t = got[n]
-                a = [str(x.name) for x in t.ancestors]
-                d = [str(x.name) for x in t.descendants]
-                inv = {m for m in names if n in anc[m]}
-                if set(a) != anc[n] or len(set(a)) != len(a):
-                    bad.append(("C05:cprim-ancestors", f"ancestors of the constrained primitive {n} are {a}, the closure is {sorted(anc[n])}"))
-                if set(d) != inv or len(set(d)) != len(d):
-                    bad.append(("C05:cprim-descendants", f"descendants of the constrained primitive {n} are {d}, the inverse relation gives {sorted(inv)}"))
-                if any(not pos[p] < pos[n] for p in c["parents"]):
-                    bad.append(("C05:cprim-topo", f"a parent of {n} does not precede it in {topo}"))
-                invs = [f"{i.specified_for.name}/{i.description}" for i in t.invariants]
-                own = [f"{n}/{x}" for x in c["invs"]]
-                k = len(invs) - len(own)
-                want = {f"{x}/{y}" for x in anc[n] for y in by[x]["invs"]}
-                if k < 0 or invs[k:] != own or set(invs[:k]) != want or len(set(invs[:k])) != k:
-                    bad.append(("C05:cprim-invariants", f"invariants of the constrained primitive {n} are {invs}; expected the inherited {sorted(want)} once each, then {own}"))
+        try:
+            bad = judge_cprim(h, st)
+        except BaseException as e:  # noqa
+            bad = [("C05:cprim-query-" + crash_name(e), f"a query on the table of constrained primitives raised {type(e).__name__}: {e}"[:300])]
         for sig, what in bad:
             ctx.fail({"cprim": h}, what, sig)
+        seen = {sig for sig, _ in bad}
+        try:
+            bad2 = judge_cprim(h, round_trip(st))
+            ctx.hit("cprim:pickle:" + ("same-verdict" if {s_ for s_, _ in bad2} == seen else "verdict-changed"))
+        except BaseException as e:  # noqa
+            bad2 = [("C05:cprim-pickle-" + crash_name(e), f"pickle round trip / a query on the un-pickled table raised {type(e).__name__}: {e}"[:300])]
+        for sig, what in bad2:
+            if sig not in seen:
+                ctx.fail({"cprim": h, "pickle": True}, "after pickle.loads(pickle.dumps(symbol_table)): " + what, sig + ":unpickled")
 
 
 # --------------------------------------------------------------------------- runner hooks
@@ -779,31 +1059,48 @@ def run_cprim(ctx: Ctx) -> None:
 
 def _run(ctx: Ctx, with_model: bool) -> None:
     batch: List[Tuple[Hier, str]] = list(inputs(ctx))
-    outs = [impl(h) for h, _ in batch]
+    outs: List[Tuple[str, Optional[Dict[str, Any]], Optional[Dict[str, Any]]]] = []
+    for h, _ in batch:
+        got, d, st = impl3(h)
+        outs.append((got, d, examine(h, got, d, st) if d is not None else None))
+        del st
     mouts: List[str] = []
     if with_model:
         mouts = ctx.model([wire(h) for h, _ in batch])
-    for k, ((h, stream), (got, d)) in enumerate(zip(batch, outs)):
+    for k, ((h, stream), (got, d, ex)) in enumerate(zip(batch, outs)):
         anc = closure(h)
         diamond = any(len([p for p in c["parents"] if a in anc.get(p, set()) or a == p]) > 1 for c in h for a in anc[c["name"]])
-        ctx.count(wire(h), nontrivial=len(h) >= 2 and any(c["parents"] for c in h), stream=stream)
+        ctx.count(wire(h) + "".join("#" + str(c.get("ser"))[0] for c in h if c.get("ser")), nontrivial=len(h) >= 2 and any(c["parents"] for c in h), stream=stream)
         ctx.hit("outcome:" + got.split(" ")[0] + (" " + got.split(" ")[1] if got.startswith("err ") else ""))
-        if d is not None:
+        if d is not None and ex is not None:
             ctx.hit("accepted:diamond" if diamond else "accepted:tree-like")
             ctx.hit(f"accepted:n={min(len(h), 10)}{'+' if len(h) >= 10 else ''}")
             if any(c["wmt"] for c in h):
                 ctx.hit("accepted:with-model-type")
+            for c in h:
+                if c.get("ser") == "bare" and anc[c["name"]] and any(by_["wmt"] is not None for by_ in h if by_["name"] in anc[c["name"]]):
+                    ctx.hit("accepted:bare-serialization-below-a-setting")
+                    break
+            if any(c.get("ser") == "pos" for c in h):
+                ctx.hit("accepted:positional-serialization")
             if [c["name"] for c in h] != d["topo"]:
                 ctx.hit("accepted:topo-differs-from-declaration")
+            ctx.hit("pickle:" + ex["trip"])
+            if any(len(anc[c["name"]]) > len(set(c["parents"])) for c in h):
+                ctx.hit("pickle:with-grand-parents")
         if k % 499 == 0:
             ctx.sample({"hier": [f"{c['name']}({','.join(c['parents'])})" for c in h], "outcome": got[:120]})
         if with_model:
             ctx.traces_validated += 1
             if got != mouts[k]:
                 ctx.disagree("translate", {"hier": h}, _explain(got), _explain(mouts[k]))
-        if d is not None:
-            for sig, what in judge(h, d):
-                ctx.fail({"hier": h}, what, sig)
+            elif ex is not None and ex.get("unpickled", got) != mouts[k]:
+                ctx.disagree("translate-unpickled", {"hier": h, "pickle": True}, _explain(ex["unpickled"]), _explain(mouts[k]))
+        if ex is not None:
+            for what in ex["diff"]:
+                ctx.disagree("pickle-round-trip", {"hier": h, "pickle": True}, what, "the round trip is the identity")
+            for sig, what in ex["fail"]:
+                ctx.fail({"hier": h, "pickle": True} if sig.endswith(":unpickled") or sig.startswith("C05:pickle-") else {"hier": h}, what, sig)
 
 
 def _explain(s: str) -> Any:
@@ -833,10 +1130,18 @@ def correspond(ctx: Ctx) -> None:
         "constrained-primitive hierarchies are exercised by the direct oracle only (stream cprim); the Lean model covers plain classes"
     )
     ctx.extra_cov["rule"] = (
-        "hierarchies = corpus + a fixed boundary list + every DAG shape on <=4 (quick) / <=5 (thorough) classes up to "
+        "hierarchies = corpus + a fixed boundary list + every assignment of {no decorator, @serialization(), "
+        "with_model_type=True, =False} to the classes of a chain of three (two declaration orders), a join and a diamond "
+        "(keyword and positional spelling) + every DAG shape on <=4 (quick) / <=5 (thorough) classes up to "
         "isomorphism x name assignments x parent-list orders x Python-legal declaration orders x abstract masks + seeded "
-        "random DAGs (<=25 classes) and single-edit mutants; non-trivial = at least two classes and one inheritance; "
-        "distinct by wire form"
+        "random DAGs (<=25 classes) and single-edit mutants; every accepted symbol table is additionally queried through "
+        "all its id-set / by-name backed accessors and sent through pickle.loads(pickle.dumps(.)), after which the same "
+        "canonical dump, the same queries and the same oracle must give the same answers; non-trivial = at least two "
+        "classes and one inheritance; distinct by wire form + decorator spelling"
+    )
+    ctx.assumptions.append(
+        "the pickle round trip is compared in Python (fresh vs un-pickled dump, both against the Lean answer and the "
+        "direct oracle); the Lean model has no notion of pickling because the round trip must be the identity"
     )
     _run(ctx, True)
 
@@ -861,8 +1166,12 @@ def replay(ctx: Ctx, data: Dict[str, Any]) -> Any:
     if "hier" not in inp and data.get("disagreements"):
         inp = data["disagreements"][0]["input"]
     h = inp["hier"]
-    got, d = impl(h)
-    res: Dict[str, Any] = {"source": render(h), "impl": _explain(got), "oracle": judge(h, d) if d is not None else "not accepted: nothing to judge"}
+    got, d, st = impl3(h)
+    res: Dict[str, Any] = {"source": render(h), "impl": _explain(got), "oracle": "not accepted: nothing to judge"}
+    if d is not None:
+        ex = examine(h, got, d, st)
+        res["oracle"] = [list(f) for f in ex["fail"]]
+        res["pickle_round_trip"] = {"outcome": ex["trip"], "differences": ex["diff"]}
     if ctx.driver_ok:
         m = ctx.model([wire(h)])[0]
         res["model"] = _explain(m)
